@@ -671,6 +671,15 @@ def encode_for_hdf5(value: Any) -> Any:
     return value
 
 
+def _decode_strings(value: Any) -> Any:
+    """Decode (nested lists of) HDF5 strings, which are stored as UTF-8."""
+    if isinstance(value, bytes):
+        return value.decode("utf-8")
+    if isinstance(value, list):
+        return [_decode_strings(v) for v in value]
+    return str(value)
+
+
 def decode_from_hdf5(value: Any) -> Any:
     """Decode a value loaded from an HDF5 file, reversing encode_for_hdf5."""
     if isinstance(value, bytes):  # HDF5 may store strings as bytes
@@ -688,7 +697,7 @@ def decode_from_hdf5(value: Any) -> Any:
             return value.item()
         if value.dtype.kind in {"S", "O", "U"}:
             try:
-                return value.astype(str).tolist()
+                return _decode_strings(value.tolist())
             except Exception:
                 # fallback: leave as ndarray
                 return value
